@@ -226,10 +226,14 @@ def oracle(case) -> Result:
         C = s_w.numel()
         if Fq.bias is not None:
             sbw = s_x * s_w
-            B = torch.where(sbw.abs() > 1e-8, torch.round(Fq.bias.detach().double() / sbw),
-                            torch.zeros_like(sbw))
+            raw_b = torch.where(sbw.abs() > 1e-8, Fq.bias.detach().double() / sbw,
+                                torch.zeros_like(sbw))
+            B = torch.round(raw_b)
+            # channels whose integer bias is a rounding tie in float32 (the layer may hold B +- 1)
+            b_tie = ((raw_b - torch.floor(raw_b)) - 0.5).abs() < 1e-3 * (1 + raw_b.abs() * 1e-4)
         else:
             B = torch.zeros(C, dtype=torch.double)
+            b_tie = torch.zeros(C, dtype=torch.bool)
         if not last and (B * scale).abs().max() >= 2 ** 31:
             res.bad('scaled-bias-overflows-32-bit', **ctx, value=float((B * scale).abs().max()))
         # ---- integer accumulator recomputed by the harness
@@ -280,6 +284,12 @@ def oracle(case) -> Result:
         frac = pre - torch.floor(pre)
         near = (frac < 2e-3) | (frac > 1 - 2e-3)           # float32 arithmetic inside the layer
         diff = (m_int - m_doc).abs()
+        if b_tie.any():
+            # accept either rounding of a tied integer bias
+            for db in (-1.0, 1.0):
+                alt = torch.clamp(torch.floor(pre + (db * scale * b_tie.double()).view(bshape)
+                                              / 2.0 ** shift), 0, 2 ** p_out - 1)
+                diff = torch.minimum(diff, (m_int - alt).abs())
         if (diff > near.double()).any():
             i = int(torch.argmax((diff - near.double()).flatten()))
             res.bad('integer-layer-differs-from-its-documented-formula', **ctx, p_out=p_out,
